@@ -52,7 +52,9 @@ def scenario(i, kind, action, nesting, pos):
     for lvl in range(nesting - 1, 0, -1):
         nm = "%s%d" % (inner_name, lvl)
         steps.append({"op": "reg_fn", "name": nm, "beh": {"id": hid + lvl, "log": True, "probe": True, "ret": "last", "reenter": chain}})
-        chain = {"act": "exec_same" if (action in ("exec_same", "lock_ctx")) else "exec_fresh", "text": "%s(5)" % nm}
+        # in the 100-level chains every nested program is also LONG (1500 flat statements, no extra nesting): 100 nested evaluations of
+        # ordinary size each, about 150 000 evaluated nodes in total
+        chain = {"act": "exec_same" if (action in ("exec_same", "lock_ctx")) else "exec_fresh", "text": "%s(5)" % nm + ("; 1" * 1500 if nesting >= DEEP else "")}
     beh = {"id": hid, "log": True, "probe": True, "ret": "last", "reenter": chain}
     ctx = {"op": "ctx", "id": i, "vars": {"w0": ["n", "41", 0], "v": ["n", "2", 0]}, "fns": {}}
     if kind == "gfn":
